@@ -73,7 +73,7 @@ CHECKS = {
              "plus a non-alias, so self loops, 2-/3-cycles, chains and diamonds all occur; the invoked name, own and user arguments vary. "
              "The result must equal an independently written iterative expander (each alias at most once, inner alias arguments before "
              "outer before user arguments, decorators in encounter order, last decorator wins), be identical for both definition orders, "
-             "and never hit RecursionError; $__ALIAS_STACK blocks re-expansion. Each resolution is asked twice and must give the same answer (the table is only read).",
+             "and never hit RecursionError; $__ALIAS_STACK blocks re-expansion. Each resolution is asked twice and must give the same answer (the table is only read); alias strings defined through Aliases.__setitem__ keep the user's arguments when and/or only occur inside punctuated words.",
         note="Finite-domain claim over the stated graph family (2-3 aliases quick, 3-4 thorough); argument tokens are opaque markers. "
              "String aliases / ExecAlias classification (regex, lexer) are outside; expand_path is the identity and no PATH search is done.",
         ref="DESIGN.md 4 C15",
@@ -122,7 +122,7 @@ CHECKS = {
              "every operation; (2) commands containing multi-byte UTF-8, quotes, backslashes, newlines, U+2028 and control characters "
              "written through the real encoder into UTF-8 bytes and every value read back through the embedded index by byte offset; "
              "(3) the index offset arithmetic of lazyjson executed symbolically with every leaf's rendering a free symbolic string, so "
-             "offsets/sizes are shown to address exactly the rendering for all rendering lengths in the bound. Histories include `clear`.",
+             "offsets/sizes are shown to address exactly the rendering for all rendering lengths in the bound. Histories include `clear`; a further obligation keeps background flushers pending (cooperative sequentialisation of the real queue/condition protocol) and reads through them.",
         note="Files are in-memory UTF-8 byte buffers behind a real TextIOWrapper; flusher threads run synchronously in creation order "
              "(the ticket queue that enforces this order is not verified). SQLite and real thread timing are outside.",
         ref="DESIGN.md 4 C12",
